@@ -37,7 +37,7 @@ theorem good_init (cap : Cap) (L R : Bool) (simple : Option SpawnSpec) : Good ca
    fun _ v _ _ _ w hw => by simp [Pool.init] at hw, fun _ => rfl,
    fun _ => rfl, fun _ A hA => by simp [Pool.init] at hA⟩,
    ⟨fun t tk h _ => by simp [Pool.init] at h, fun m r h => by simp [Pool.init] at h,
-    fun m r h => by simp [Pool.init] at h⟩,
+    fun m r h => by simp [Pool.init] at h, fun m r h => by simp [Pool.init] at h⟩,
    ⟨fun t tk h => by simp [Pool.init] at h, fun m r h => by simp [Pool.init] at h,
     fun m r h => by simp [Pool.init] at h⟩⟩
 
